@@ -184,7 +184,11 @@ func discharge(reps []*FuncReport, cfg solveCfg) {
 					}
 					j.o.Status, j.o.Solver, j.o.TimeMs, j.o.Model = win.status, strings.Join(sts, ","), win.ms, win.out
 				} else {
-					r, _ := race(f, cfg.timeoutS, cfg.seed, solvers)
+					to := cfg.timeoutS
+					if j.o.Expect == "sat" && to > 4 {
+						to = 4 // cover queries are auxiliary: inconclusive after 4 s is not a failure
+					}
+					r, _ := race(f, to, cfg.seed, solvers)
 					j.o.Status, j.o.Solver, j.o.TimeMs, j.o.Model = r.status, r.solver, r.ms, r.out
 				}
 				j.o.File = f
